@@ -24,7 +24,23 @@ use ractor_cluster::verif::proto;
 use ractor_cluster::{BoxRead, BoxWrite, ClusterBidiStream, NodeServer, NodeServerMessage, RactorClusterMessage, RactorMessage};
 use tokio::io::{AsyncReadExt, AsyncWriteExt};
 
-const COOKIE: &str = "cookie";
+/// The node's real cookie and the (different) cookie of an intruder, per case. The intruder
+/// runs the same software: its digests come from the code under test (`digest`) applied to ITS
+/// cookie; honest peers and the oracle's table use the independent reference. The fixed FSM /
+/// E-PURE parts use the defaults.
+static COOKIES: Mutex<(String, String)> = Mutex::new((String::new(), String::new()));
+
+fn set_cookies(real: &str, wrong: &str) {
+    *COOKIES.lock().unwrap() = (real.to_string(), wrong.to_string());
+}
+fn cookie() -> String {
+    let c = COOKIES.lock().unwrap();
+    if c.0.is_empty() { "cookie".to_string() } else { c.0.clone() }
+}
+fn wrong_cookie() -> String {
+    let c = COOKIES.lock().unwrap();
+    if c.1.is_empty() { "other-cookie".to_string() } else { c.1.clone() }
+}
 
 fn hex(b: &[u8]) -> String {
     if b.is_empty() {
@@ -66,7 +82,8 @@ fn parse_pids(s: &str) -> Option<Vec<u64>> {
     }
 }
 
-/// The digest table `h=` for the challenges mentioned (real cookie).
+/// The digest table `h=` for the challenges mentioned (real cookie), computed with the REFERENCE
+/// implementation — what an honest peer computes —, never with the code under test.
 fn htable(cs: &[u32]) -> String {
     let mut cs: Vec<u32> = cs.to_vec();
     cs.sort_unstable();
@@ -74,7 +91,7 @@ fn htable(cs: &[u32]) -> String {
     if cs.is_empty() {
         return "-".into();
     }
-    cs.iter().map(|c| format!("{c}:{}", hex(&digest(COOKIE, *c)))).collect::<Vec<_>>().join(",")
+    cs.iter().map(|c| format!("{c}:{}", hex(&reference_digest(&cookie(), *c)))).collect::<Vec<_>>().join(",")
 }
 
 // ------------------------------------------------------------------ auth messages (descriptor <-> proto)
@@ -184,7 +201,7 @@ fn do_srv(log: &mut Log, st: &mut Stats, state: &str, msg: &str) {
         log.rec(format!("srv {state} {msg}"), "unparsable-in-replay");
         return;
     };
-    let next = colonize(s.next(m, COOKIE).describe());
+    let next = colonize(s.next(m, &cookie()).describe());
     let mut cs = challenges_of(state);
     cs.extend(challenges_of(msg));
     cs.extend(challenges_of(&next));
@@ -198,7 +215,7 @@ fn do_srvstart(log: &mut Log, st: &mut Stats, state: &str) {
         log.rec(format!("srvstart {state}"), "unparsable-in-replay");
         return;
     };
-    let next = colonize(s.start_challenge(COOKIE).describe());
+    let next = colonize(s.start_challenge(&cookie()).describe());
     let mut cs = challenges_of(state);
     cs.extend(challenges_of(&next));
     st.bump("fsm_srvstart");
@@ -210,7 +227,7 @@ fn do_cli(log: &mut Log, st: &mut Stats, state: &str, msg: &str) {
         log.rec(format!("cli {state} {msg}"), "unparsable-in-replay");
         return;
     };
-    let next = colonize(s.next(m, COOKIE).describe());
+    let next = colonize(s.next(m, &cookie()).describe());
     let mut cs = challenges_of(state);
     cs.extend(challenges_of(msg));
     cs.extend(challenges_of(&next));
@@ -220,8 +237,8 @@ fn do_cli(log: &mut Log, st: &mut Stats, state: &str, msg: &str) {
 }
 
 fn fsm_part(log: &mut Log, st: &mut Stats, rng: &mut Rng, cases: u64) {
-    let good = |c: u32| hex(&digest(COOKIE, c));
-    let bad = |c: u32| hex(&digest("other-cookie", c));
+    let good = |c: u32| hex(&reference_digest(&cookie(), c));
+    let bad = |c: u32| hex(&digest(&wrong_cookie(), c));
     // digests a peer may present for challenge c: right, wrong cookie, right digest of another challenge, truncated, empty, extended
     let digests = |c: u32| -> Vec<String> {
         let g = good(c);
@@ -280,6 +297,89 @@ fn fsm_part(log: &mut Log, st: &mut Stats, rng: &mut Rng, cases: u64) {
         let cs = [format!("waitingAck:s:c:{c2}:{}:{c}:{}", good(c2), good(c)), "waitingChallenge:1".into(), "waitingStatus".into()];
         let (a, b) = (rng.pick(&cs[..]).clone(), rng.pick(&ms[..]).clone());
         do_cli(log, st, &a, &b);
+    }
+}
+
+// ------------------------------------------------------------------ E-PURE: challenge_digest uses all of its input
+
+/// Reference: SHA-256 over the 4 big-endian challenge bytes followed by the cookie's bytes
+/// (the layout documented in `hash.rs`), computed with the sha2 crate directly.
+fn reference_digest(cookie: &str, challenge: u32) -> Vec<u8> {
+    use sha2::Digest as _;
+    let mut h = sha2::Sha256::new();
+    h.update(challenge.to_be_bytes());
+    h.update(cookie.as_bytes());
+    h.finalize().to_vec()
+}
+
+/// `digest c1=<hex> c2=<hex> ch1= ch2= ref=<hex>,<hex>` -> `<hex>,<hex>` (the real `challenge_digest`)
+fn do_digest(log: &mut Log, st: &mut Stats, c1: &str, c2: &str, ch1: u32, ch2: u32) {
+    let d1 = digest(c1, ch1);
+    let d2 = digest(c2, ch2);
+    st.bump("digest_pair");
+    if c1 == c2 && ch1 == ch2 {
+        st.bump("digest_pair_equal_inputs");
+    }
+    log.rec(
+        format!(
+            "digest c1={} c2={} ch1={ch1} ch2={ch2} ref={},{}",
+            hex(c1.as_bytes()),
+            hex(c2.as_bytes()),
+            hex(&reference_digest(c1, ch1)),
+            hex(&reference_digest(c2, ch2))
+        ),
+        format!("{},{}", hex(&d1), hex(&d2)),
+    );
+}
+
+fn ascii(rng: &mut Rng, n: usize) -> String {
+    (0..n).map(|_| (b'a' + rng.below(26) as u8) as char).collect()
+}
+
+fn digest_part(log: &mut Log, st: &mut Stats, rng: &mut Rng, cases: u64) {
+    do_digest(log, st, "cookie", "cookie", 42, 42);
+    do_digest(log, st, "", "", 0, 0);
+    do_digest(log, st, "", "a", 0, 0);
+    // cookies of every length 0..=200: pairs that differ only in the last byte, only in length
+    // (one trailing byte), only in one early byte, only at a position around the SHA block size
+    for n in 0..=200usize {
+        let base = ascii(rng, n);
+        let ch = rng.next_u64() as u32;
+        do_digest(log, st, &base, &base, ch, ch);
+        do_digest(log, st, &base, &format!("{base}x"), ch, ch);
+        if n > 0 {
+            let flip = |i: usize| {
+                let mut b = base.clone().into_bytes();
+                b[i] = if b[i] == b'z' { b'a' } else { b[i] + 1 };
+                String::from_utf8(b).unwrap()
+            };
+            let last = flip(n - 1);
+            do_digest(log, st, &base, &last, ch, ch);
+            let first = flip(0);
+            do_digest(log, st, &base, &first, ch, ch);
+            for pos in [55usize, 56, 59, 60, 61, 63, 64, 65, 119, 127, 128] {
+                if pos < n {
+                    let other = flip(pos);
+                    do_digest(log, st, &base, &other, ch, ch);
+                }
+            }
+            // same prefix of 60 / 61 / 63 / 64 bytes, everything after it different
+            for p in [60usize, 61, 63, 64] {
+                if p < n {
+                    let other = format!("{}{}", &base[..p], "#".repeat(n - p));
+                    do_digest(log, st, &base, &other, ch, ch);
+                }
+            }
+        }
+        // challenges differing in each of their four bytes
+        for byte in 0..4 {
+            do_digest(log, st, &base, &base, ch, ch ^ (1 << (8 * byte + rng.below(8) as u32)));
+        }
+    }
+    for _ in 0..cases {
+        let (a, b) = (rng.below(201) as usize, rng.below(201) as usize);
+        let (c1, c2) = (ascii(rng, a), ascii(rng, b));
+        do_digest(log, st, &c1, &c2, rng.next_u64() as u32, rng.next_u64() as u32);
     }
 }
 
@@ -570,7 +670,7 @@ struct World {
 impl World {
     async fn new(name: &str, case_no: u64, transitive: bool, limit: Option<u64>) -> World {
         let mode = if transitive { ractor_cluster::node::NodeConnectionMode::Transitive } else { ractor_cluster::node::NodeConnectionMode::Isolated };
-        let mut server = NodeServer::new(0, COOKIE.to_string(), name.to_string(), format!("h{case_no}"), None, Some(mode));
+        let mut server = NodeServer::new(0, cookie(), name.to_string(), format!("h{case_no}"), None, Some(mode));
         if let Some(l) = limit {
             // a non-default limit on inbound frames: must hold for every session, however it was opened
             server = server.with_max_inbound_frame_size(l);
@@ -1048,8 +1148,8 @@ fn random_frame(w: &World, rng: &mut Rng, k: u64, chal: Option<u32>) -> String {
     let remote_pids = ["1", "2", "3", "1,2", "2,3,4", "-"];
     let scopes = ["sc", "s2"];
     let groups = ["g1", "g2"];
-    let good = |c: u32| hex(&digest(COOKIE, c));
-    let bad = |c: u32| hex(&digest("other-cookie", c));
+    let good = |c: u32| hex(&reference_digest(&cookie(), c));
+    let bad = |c: u32| hex(&digest(&wrong_cookie(), c));
     let c = chal.unwrap_or(17);
     let roll = if w.bait.is_some() && rng.chance(1, 4) { 23 } else { rng.below(26) };
     match roll {
@@ -1093,9 +1193,29 @@ async fn lts_case(log: &mut Log, st: &mut Stats, rng: &mut Rng, case_no: u64) {
     let short = format!("node{}", case_no % 3);
     let transitive = case_no % 8 == 5;
     let limit = if case_no % 6 == 1 { Some(4096) } else { None };
+    // one case in three: a long real cookie, and an intruder whose cookie shares a long prefix with it
+    if rng.chance(1, 3) {
+        let n = rng.range(64, 128) as usize;
+        let real = ascii(rng, n);
+        let p = (*rng.pick(&[60usize, 60, 61, 63, 64, n - 1])).min(n - 1);
+        let wrong = format!("{}{}", &real[..p], "#".repeat(rng.range(1, (n - p) as u64 + 3) as usize));
+        set_cookies(&real, &wrong);
+        st.bump("lts_long_cookie_shared_prefix");
+    } else {
+        set_cookies("", "");
+    }
     let mut w = World::new(&short, case_no, transitive, limit).await;
     let name = w.name.clone();
-    log.rec(format!("node {short} transitive={} limit={}", transitive as u8, limit.unwrap_or(ractor_cluster::DEFAULT_MAX_INBOUND_FRAME_SIZE)), "ok");
+    log.rec(
+        format!(
+            "node {short} transitive={} limit={} cookie={} wrong={}",
+            transitive as u8,
+            limit.unwrap_or(ractor_cluster::DEFAULT_MAX_INBOUND_FRAME_SIZE),
+            cookie(),
+            wrong_cookie()
+        ),
+        "ok",
+    );
     // local actors: a remotable probe in a group, a non-remotable one in a group, a remotable loner
     w.spawn_probe(true, Some(("sc", "g1"))).await;
     w.spawn_probe(false, Some(("sc", "g1"))).await;
@@ -1119,8 +1239,8 @@ async fn lts_case(log: &mut Log, st: &mut Stats, rng: &mut Rng, case_no: u64) {
                 op_send(&mut w, log, st, k, &f).await;
             }
         }
-        let good = |c: u32| hex(&digest(COOKIE, c));
-        let bad = |c: u32| hex(&digest("other-cookie", c));
+        let good = |c: u32| hex(&reference_digest(&cookie(), c));
+        let bad = |c: u32| hex(&digest(&wrong_cookie(), c));
         if server_side {
             sent = op_send(&mut w, log, st, k, &format!("name:{peer}:pc:{}", rng.below(3))).await;
             chal = last_challenge(&sent, true).or(chal);
@@ -1157,7 +1277,7 @@ async fn lts_case(log: &mut Log, st: &mut Stats, rng: &mut Rng, case_no: u64) {
         if let Some(c) = last_challenge(&sent, true) {
             let rem = w.rem_now();
             let target = rem.first().copied().unwrap_or(1);
-            let dg = if rng.chance(1, 2) { hex(&digest(COOKIE, c)) } else { hex(&digest("other-cookie", c)) };
+            let dg = if rng.chance(1, 2) { hex(&reference_digest(&cookie(), c)) } else { hex(&digest(&wrong_cookie(), c)) };
             let fs = vec![format!("cchal:9:{dg}"), format!("cast:{target}"), "spawn:1,2".to_string(), "pgjoin:sc:g2:1".to_string()];
             op_batch(&mut w, log, st, k, &fs).await;
         }
@@ -1216,7 +1336,7 @@ async fn lts_case(log: &mut Log, st: &mut Stats, rng: &mut Rng, case_no: u64) {
         if srv2 {
             let s = op_send(&mut w, log, st, k2, &format!("name:{peer2}:pc2:{}", rng.below(3))).await;
             if let Some(c) = last_challenge(&s, true) {
-                let dg = if rng.chance(1, 2) { hex(&digest(COOKIE, c)) } else { hex(&digest("x", c)) };
+                let dg = if rng.chance(1, 2) { hex(&reference_digest(&cookie(), c)) } else { hex(&digest(&wrong_cookie(), c)) };
                 op_send(&mut w, log, st, k2, &format!("cchal:5:{dg}")).await;
             }
         } else {
@@ -1224,7 +1344,7 @@ async fn lts_case(log: &mut Log, st: &mut Stats, rng: &mut Rng, case_no: u64) {
             op_send(&mut w, log, st, k2, "sstatus:0").await;
             let s = op_send(&mut w, log, st, k2, &format!("schal:{peer2}:pc2:99")).await;
             if let Some(c) = last_challenge(&s, false) {
-                let dg = if rng.chance(1, 2) { hex(&digest(COOKIE, c)) } else { hex(&digest("x", c)) };
+                let dg = if rng.chance(1, 2) { hex(&reference_digest(&cookie(), c)) } else { hex(&digest(&wrong_cookie(), c)) };
                 op_send(&mut w, log, st, k2, &format!("sack:{dg}")).await;
             }
         }
@@ -1264,7 +1384,7 @@ async fn lts_case(log: &mut Log, st: &mut Stats, rng: &mut Rng, case_no: u64) {
 /// A full, correct handshake on connection `k` as a peer that knows the cookie; returns whether
 /// the node ended up sending `ready`.
 async fn good_handshake(w: &mut World, log: &mut Log, st: &mut Stats, rng: &mut Rng, k: u64, server_side: bool, peer: &str) -> bool {
-    let good = |c: u32| hex(&digest(COOKIE, c));
+    let good = |c: u32| hex(&reference_digest(&cookie(), c));
     if server_side {
         let sent = op_send(w, log, st, k, &format!("name:{peer}:pc{k}:{}", rng.below(3))).await;
         if let Some(c) = last_challenge(&sent, true) {
@@ -1297,6 +1417,7 @@ async fn wire_case(log: &mut Log, st: &mut Stats, rng: &mut Rng, case_no: u64) {
         _ => Some(4096),
     };
     let max = limit.unwrap_or(default);
+    set_cookies("", "");
     let mut w = World::new(&short, 500_000 + case_no, false, limit).await;
     log.rec(format!("node {short} transitive=0 limit={max}"), "ok");
     st.bump(&format!("wire_limit_{max}"));
@@ -1471,6 +1592,10 @@ async fn replay_ops(log: &mut Log, st: &mut Stats, path: &str) {
                 }
                 case_no += 1;
                 let transitive = rest.iter().any(|x| *x == "transitive=1");
+                set_cookies(
+                    rest.iter().find_map(|x| x.strip_prefix("cookie=")).unwrap_or(""),
+                    rest.iter().find_map(|x| x.strip_prefix("wrong=")).unwrap_or(""),
+                );
                 let limit = rest.iter().find_map(|x| x.strip_prefix("limit=")).and_then(|x| x.parse::<u64>().ok()).filter(|l| *l != ractor_cluster::DEFAULT_MAX_INBOUND_FRAME_SIZE);
                 let mut nw = World::new(name, case_no, transitive, limit).await;
                 nw.spawn_probe(true, Some(("sc", "g1"))).await;
@@ -1490,9 +1615,13 @@ async fn replay_ops(log: &mut Log, st: &mut Stats, path: &str) {
                 // the challenge this run's node issued
                 let mut d = desc.to_string();
                 if let (Some(rc), Some(cc)) = (rec_issued.get(&k), cur_issued.get(&k)) {
-                    let right_then = hex(&digest(COOKIE, *rc));
-                    if d.ends_with(&format!(":{right_then}")) {
-                        d = format!("{}:{}", &d[..d.len() - right_then.len() - 1], hex(&digest(COOKIE, *cc)));
+                    let right_then = hex(&reference_digest(&cookie(), *rc));
+                    let wrong_then = hex(&digest(&wrong_cookie(), *rc));
+                    if d.ends_with(&format!(":{right_then}")) && right_then != wrong_then {
+                        d = format!("{}:{}", &d[..d.len() - right_then.len() - 1], hex(&reference_digest(&cookie(), *cc)));
+                    } else if d.ends_with(&format!(":{wrong_then}")) {
+                        // the intruder's digest (its own cookie, the challenge issued then) -> now
+                        d = format!("{}:{}", &d[..d.len() - wrong_then.len() - 1], hex(&digest(&wrong_cookie(), *cc)));
                     }
                 }
                 let w0 = world.as_mut().unwrap();
@@ -1541,6 +1670,12 @@ async fn replay_ops(log: &mut Log, st: &mut Stats, path: &str) {
             }
             ["survived"] => {} // re-derived
             ["killed", ..] => {} // re-derived from what happens in this run
+            ["digest", rest @ ..] => {
+                let f = |k: &str| rest.iter().find_map(|x| x.strip_prefix(k)).unwrap_or("");
+                let c1 = String::from_utf8(unhex(f("c1=")).unwrap_or_default()).unwrap_or_default();
+                let c2 = String::from_utf8(unhex(f("c2=")).unwrap_or_default()).unwrap_or_default();
+                do_digest(log, st, &c1, &c2, f("ch1=").parse().unwrap_or(0), f("ch2=").parse().unwrap_or(0));
+            }
             ["authz", ..] => log.rec(line, "unsupported-in-replay: pids are not stable across runs"),
             _ => log.rec(line, "unsupported-in-replay"),
         }
@@ -1568,6 +1703,7 @@ async fn run(args: Args) {
         }
     } else if args.u64("only-replay", 0) != 1 {
         fsm_part(&mut log, &mut st, &mut rng, cases);
+        digest_part(&mut log, &mut st, &mut rng, cases);
         authz_part(&mut log, &mut st, &mut rng, cases).await;
         for c in 0..cases {
             lts_case(&mut log, &mut st, &mut rng, c).await;
